@@ -23,8 +23,14 @@ def single_stage_cases(prefix, ndev, groups, frame_data, rnd, limit):
     opts = [script(a, r, s, f) for a in (0, 1, 2) for r in (0, 0x1D) for s in (False, True) for f in (0, 1)]
     combos = list(itertools.product(range(len(opts)), repeat=ndev))
     rnd.shuffle(combos)
+    # half of the sample without a device that refuses or stalls (else nearly every sampled case fails for that reason and
+    # the interplay of slow devices, fall-backs and frame boundaries is hardly seen)
+    good = [k for k, o in enumerate(opts) if not o["refuse_with"] and not o["stall"]]
+    gcombos = list(itertools.product(good, repeat=ndev))
+    rnd.shuffle(gcombos)
+    picked = gcombos[:limit // 2] + combos[:limit - min(len(gcombos), limit // 2)]
     out = []
-    for i, combo in enumerate(combos[:limit]):
+    for i, combo in enumerate(picked):
         out.append(dict(id=f"{prefix}{i}", devices=[dev("dio", k + 1) for k in range(ndev)], groups=groups,
                         target="safe_op", scripts=[opts[c] for c in combo], script_state="all", frame_data=frame_data,
                         transition_timeout_ms=100))
@@ -50,7 +56,7 @@ def random_cases(rnd, n):
                                              for k in range(ndev)],
                         groups=rnd.choice([1, 1, 2]), target=rnd.choice(["safe_op", "op", "op", "request_op", "pre_op", "init"]),
                         scripts=scripts, script_state=rnd.choice(["all", "all", "safeop", "op"]),
-                        frame_data=rnd.choice([1100, 1100, 64, 48]), transition_timeout_ms=rnd.choice([50, 100])))
+                        frame_data=rnd.choice([1100, 1100, 64, 48, 32, 24]), transition_timeout_ms=rnd.choice([50, 100])))
     return out
 
 
@@ -69,7 +75,9 @@ def run(pid, tier):
     rnd = random.Random(lib.seed())
     inv = ["OkImpliesAllReportedAtCheck", "BadDeviceMeansError", "ErrWithinTimeout", "Terminates",
            "RequestToAllMembersOnly"]
-    shapes = [("a3", 3, "{1, 2, 3}", 77, 1, 1100), ("b4", 4, "{1, 2, 3, 4}", 2, 1, 48), ("c4", 4, "{1, 3}", 77, 2, 1100)]
+    # (name, devices, members of the group, status reads per frame = (frame_data + 12) // 14, groups, frame_data)
+    shapes = [("a3", 3, "{1, 2, 3}", 79, 1, 1100), ("b4", 4, "{1, 2, 3, 4}", 2, 1, 24), ("c4", 4, "{1, 3}", 79, 2, 1100),
+              ("d4", 4, "{1, 2, 3, 4}", 3, 1, 32)]
     for name, ndev, members, per_frame, groups, frame_data in shapes:
         mod = f"---- MODULE AlStateMC_{name} ----\nEXTENDS AlState\nMCScripts == {SCRIPT_SET}\n====\n"
         consts = dict(NDev=ndev, Members=members, PerFrame=per_frame, MaxRounds=6, From=2, Target=4)
